@@ -12,6 +12,7 @@ import (
 	"fmt"
 	"io"
 	"io/fs"
+	realos "os"
 	"sort"
 	"strings"
 	"syscall"
@@ -116,9 +117,10 @@ type Op struct {
 type Disk struct {
 	Root      *Inode
 	Cwd       string
-	Home      string   // "" => UserHomeDir fails
-	Uid       int      // 0 = root: permission bits never deny
-	Umask     FileMode // applied to the mode of created files and directories, as open(2)/mkdir(2) do
+	Home      string            // "" => UserHomeDir fails
+	Env       map[string]string // the rest of the process environment (XDG_*, TMPDIR, ...)
+	Uid       int               // 0 = root: permission bits never deny
+	Umask     FileMode          // applied to the mode of created files and directories, as open(2)/mkdir(2) do
 	Dead      bool
 	Step      int
 	Plan      []Fault
@@ -161,7 +163,7 @@ func (d *Disk) newInode(k Kind, mode FileMode) *Inode {
 
 // Clone makes a deep copy of the tree (open files and logs are not copied).
 func (d *Disk) Clone() *Disk {
-	c := &Disk{Cwd: d.Cwd, Home: d.Home, Uid: d.Uid, Umask: d.Umask, nextIno: d.nextIno, open: map[*File]struct{}{}, Rand: d.Rand, TempClash: d.TempClash}
+	c := &Disk{Cwd: d.Cwd, Home: d.Home, Env: d.Env, Uid: d.Uid, Umask: d.Umask, nextIno: d.nextIno, open: map[*File]struct{}{}, Rand: d.Rand, TempClash: d.TempClash}
 	seen := map[*Inode]*Inode{}
 	var cp func(n *Inode) *Inode
 	cp = func(n *Inode) *Inode {
@@ -506,23 +508,64 @@ func UserHomeDir() (string, error) {
 }
 
 func Getenv(k string) string {
-	if k == "HOME" {
-		return Cur.Home
-	}
-	return ""
+	v, _ := LookupEnv(k)
+	return v
 }
 
 func LookupEnv(k string) (string, bool) {
-	if k == "HOME" && Cur.Home != "" {
-		return Cur.Home, true
+	if k == "HOME" {
+		return Cur.Home, Cur.Home != ""
 	}
-	return "", false
+	v, ok := Cur.Env[k]
+	return v, ok
+}
+
+func Environ() []string {
+	var out []string
+	if Cur.Home != "" {
+		out = append(out, "HOME="+Cur.Home)
+	}
+	keys := make([]string, 0, len(Cur.Env))
+	for k := range Cur.Env {
+		keys = append(keys, k)
+	}
+	sort.Strings(keys)
+	for _, k := range keys {
+		out = append(out, k+"="+Cur.Env[k])
+	}
+	return out
+}
+
+func ExpandEnv(s string) string                     { return realos.Expand(s, Getenv) }
+func Expand(s string, m func(string) string) string { return realos.Expand(s, m) }
+
+// UserConfigDir and UserCacheDir follow package os on Linux: $XDG_*_HOME when set (it must be
+// absolute), else $HOME/.config or $HOME/.cache.
+func UserConfigDir() (string, error) { return xdgDir("XDG_CONFIG_HOME", "/.config") }
+func UserCacheDir() (string, error)  { return xdgDir("XDG_CACHE_HOME", "/.cache") }
+
+func xdgDir(key, fallback string) (string, error) {
+	dir := Getenv(key)
+	if dir == "" {
+		dir = Getenv("HOME")
+		if dir == "" {
+			return "", errors.New("neither $" + key + " nor $HOME are defined")
+		}
+		return dir + fallback, nil
+	}
+	if !strings.HasPrefix(dir, "/") {
+		return "", errors.New("path in $" + key + " is relative")
+	}
+	return dir, nil
 }
 
 func Getuid() int  { return Cur.Uid }
 func Geteuid() int { return Cur.Uid }
 func Getpid() int  { return 4242 }
 func TempDir() string {
+	if v := Getenv("TMPDIR"); v != "" {
+		return v
+	}
 	return "/tmp"
 }
 
